@@ -19,7 +19,7 @@ from props import C16
 
 THEOREMS = ["C06_general", "C06_written_once", "C06", "C06_old_or_new", "C06_same_answer", "C06_reload_writes_main_once",
             "C06_reload_skeletons", "C06_instance", "C06_instance_once", "C06_instance_new_is_model_new", "C06_when",
-            "C06_when_cache_reset"]
+            "C06_when_cache_reset", "C06_data_implies_synchronised"]
 SESSION = 4711
 
 
